@@ -179,7 +179,7 @@ def run(ctx):
             distinct_nontrivial=len(specs),
             rule="every operation of {v++, v--, w++, clz32(v), fbrev(w), three statement-expressions, two void calls} in each of 26 positions (initialiser, rhs, operands, if/for conditions, for step, call/macro argument, "
             "?: condition/then/else, unused expression statement, if/else arm, loop body, store data, register write, jump target, compound assignment, cast, unary, comparison), and all ordered pairs (thorough: selected triples) of operations "
-            "in 10 two-operation shapes, excluding only pairs that modify one object twice within one unsequenced expression (undefined in C); each program between a preceding and a following statement observing v and w, "
+            "in 10 two-operation shapes; every operation as unused / assigned / accumulated statement in 20 statement contexts (then / else arms braced and unbraced, else-if, nested arms, loop bodies, loops in arms, blocks, sequences); excluding only pairs that modify one object twice within one unsequenced expression (undefined in C); each program between a preceding and a following statement observing v and w, "
             "on the complete E5 domain of (a, c) and USR, budget %d states; the ILVM monitor for reads of never-written temporaries is part of the IL-side verdict" % budget,
             exhaustive=True,
             state_budget_per_program=budget,
